@@ -450,6 +450,8 @@ func randHistory(r *core.Rng, length int) hcase {
 			h.Ops = append(h.Ops, hop{Kind: "delete", File: core.Pick(r, s.Files)})
 		case k < 95:
 			h.Ops = append(h.Ops, hop{Kind: "chmod", File: core.Pick(r, s.Files)})
+		case k < 96:
+			h.Ops = append(h.Ops, hop{Kind: core.Pick(r, []string{"tamper", "rmtag"})})
 		case k < 98:
 			h.Ops = append(h.Ops, hop{Kind: "rmcache"})
 		default:
@@ -630,6 +632,22 @@ func histAlts(c *core.Ctx, sb *sandbox, res *core.ShardResult, wl *core.WLog) {
 		d := cp()
 		d.Tasks[0].Lits = append(d.Tasks[0].Lits, "b.txt")
 		combos = append(combos, combo{base, d, "one-dependency-more"})
+	}
+	// the same dependencies listed in another order (on shapes whose tasks name several)
+	for _, base := range []hshape{histShapes[3], histShapes[8]} {
+		o := hshape{Name: base.Name, Files: base.Files, Links: base.Links}
+		for _, t := range base.Tasks {
+			nt := t
+			nt.Lits, nt.Globs = nil, nil
+			for i := len(t.Lits) - 1; i >= 0; i-- {
+				nt.Lits = append(nt.Lits, t.Lits[i])
+			}
+			for i := len(t.Globs) - 1; i >= 0; i-- {
+				nt.Globs = append(nt.Globs, t.Globs[i])
+			}
+			o.Tasks = append(o.Tasks, nt)
+		}
+		combos = append(combos, combo{base, o, "another-order"})
 	}
 	maxLen := c.Q(6, 7)
 	wl.Block(0)
